@@ -7,6 +7,7 @@ import (
 	"fmt"
 	"net"
 	"strings"
+	"sync"
 	"sync/atomic"
 	"time"
 
@@ -94,6 +95,91 @@ const slowLabel = "slow"
 
 var handlerCalls atomic.Int64
 
+// holdLabel makes the handler block for longer, so that the buffers of a whole
+// burst are in flight at once; blockLabel makes it block until the harness
+// opens the gate (it occupies a pipeline slot of its connection meanwhile).
+const (
+	holdLabel  = "hold"
+	blockLabel = "block"
+)
+
+// gate blocks handlers of blockLabel names until it is opened.
+type gate struct {
+	mu sync.Mutex
+	ch chan struct{}
+}
+
+func (g *gate) wait() {
+	g.mu.Lock()
+	ch := g.ch
+	g.mu.Unlock()
+	if ch != nil {
+		<-ch
+	}
+}
+
+// arm closes the gate; the returned function opens it again.
+func (g *gate) arm() (open func()) {
+	ch := make(chan struct{})
+	g.mu.Lock()
+	g.ch = ch
+	g.mu.Unlock()
+
+	return sync.OnceFunc(func() { close(ch) })
+}
+
+var blockGate = &gate{}
+
+// seenNames records the names of a chosen prefix that reached the handler.
+type seenNames struct {
+	mu     sync.Mutex
+	names  map[string]int
+	prefix string
+}
+
+func (s *seenNames) note(name string) {
+	s.mu.Lock()
+	if s.prefix != "" && strings.HasPrefix(strings.ToLower(name), s.prefix) {
+		s.names[strings.ToLower(name)]++
+	}
+	s.mu.Unlock()
+}
+
+func (s *seenNames) watch(prefix string) {
+	s.mu.Lock()
+	s.prefix, s.names = prefix, map[string]int{}
+	s.mu.Unlock()
+}
+
+func (s *seenNames) count(name string) (n int) {
+	s.mu.Lock()
+	defer s.mu.Unlock()
+
+	return s.names[strings.ToLower(name)]
+}
+
+var handlerSeen = &seenNames{names: map[string]int{}}
+
+// optSummary renders what was decoded of the request's OPT record.
+func optSummary(req *dns.Msg) (s string) {
+	opt := req.IsEdns0()
+	if opt == nil {
+		return "opt:none"
+	}
+
+	s = fmt.Sprintf("opt:size=%d,do=%t,ver=%d,ttl=%08x", opt.UDPSize(), opt.Do(), opt.Version(), opt.Hdr.Ttl)
+	for _, o := range opt.Option {
+		text := strings.ReplaceAll(o.String(), " ", "")
+		s += fmt.Sprintf(",%d:%d:%.24s", o.Option(), len(text), text)
+	}
+
+	if len(s) > 200 {
+		s = s[:200]
+	}
+
+	return s
+}
+
 // reflectServe answers with the question echoed, one A record owned by the
 // question name, and every record the request carried (answer, authority and
 // non-OPT additional) copied into the additional section.  The response is a
@@ -104,9 +190,6 @@ func reflectServe(ctx context.Context, rw dnsserver.ResponseWriter, req *dns.Msg
 	}
 
 	q := req.Question[0]
-	if strings.HasPrefix(strings.ToLower(q.Name), slowLabel) {
-		time.Sleep(2 * time.Millisecond)
-	}
 
 	resp := (&dns.Msg{}).SetReply(req)
 	resp.RecursionAvailable = true
@@ -125,6 +208,13 @@ func reflectServe(ctx context.Context, rw dnsserver.ResponseWriter, req *dns.Msg
 		}
 	}
 
+	// The OPT record is rewritten by the servers on the way out, so what the
+	// server decoded of it is shown in a record of its own.
+	resp.Extra = append(resp.Extra, &dns.TXT{
+		Hdr: dns.RR_Header{Name: "opt.reflected.", Rrtype: dns.TypeTXT, Class: dns.ClassINET, Ttl: 60},
+		Txt: []string{optSummary(req)},
+	})
+
 	// A write error (client gone) is not the handler's business.
 	_ = rw.WriteMsg(ctx, req, resp)
 
@@ -134,6 +224,24 @@ func reflectServe(ctx context.Context, rw dnsserver.ResponseWriter, req *dns.Msg
 func serverHandler() dnsserver.Handler {
 	return dnsserver.HandlerFunc(func(ctx context.Context, rw dnsserver.ResponseWriter, req *dns.Msg) error {
 		handlerCalls.Add(1)
+
+		// The delays are the server-side handler's only; the reference calls
+		// reflectServe directly.
+		if len(req.Question) == 1 {
+			name := req.Question[0].Name
+			switch lower := strings.ToLower(name); {
+			case strings.HasPrefix(lower, blockLabel):
+				// Keep the slot of this request busy until the harness lets
+				// go.
+				blockGate.wait()
+			case strings.HasPrefix(lower, holdLabel):
+				time.Sleep(20 * time.Millisecond)
+			case strings.HasPrefix(lower, slowLabel):
+				time.Sleep(2 * time.Millisecond)
+			}
+
+			handlerSeen.note(name)
+		}
 
 		return reflectServe(ctx, rw, req)
 	})
@@ -407,6 +515,59 @@ func judge(e *expectation, sent, raw []byte, checkStale bool) (resp *dns.Msg, ps
 
 // keyFor maps the problems of one response to a violation key.  The classes
 // are kept apart so that one defect cannot hide another.
+// cutExplains reports whether the response raw is exactly what the documented
+// treatment of a proper prefix sent[:k] of the message yields, i.e. whether
+// the server behaved as if the message had been cut short before decoding (a
+// receive buffer smaller than the message).  Only called for responses that
+// have already been found wrong.
+func cutExplains(sent, raw []byte) (k int, ok bool) {
+	resp := &dns.Msg{}
+	if len(raw) < 2 || len(sent) < 2 || raw[0] != sent[0] || raw[1] != sent[1] || resp.Unpack(raw) != nil {
+		return 0, false
+	}
+
+	got := digest(resp)
+	for k = len(sent) - 1; k >= 12; k-- {
+		ex := modelOf(sent[:k])
+		switch ex.kind {
+		case expRef:
+			if ex.refOK && digest(ex.ref) == got {
+				return k, true
+			}
+		case expRcode:
+			n := len(rrStrings(resp.Answer)) + len(rrStrings(resp.Ns)) + len(rrStrings(resp.Extra))
+			sub := true
+			for _, q := range resp.Question {
+				found := false
+				for _, o := range ex.own.Question {
+					found = found || o == q
+				}
+				sub = sub && found
+			}
+
+			for _, rc := range ex.rcodes {
+				if resp.Rcode&0xf == rc && n == 0 && sub {
+					return k, true
+				}
+			}
+		}
+	}
+
+	return 0, false
+}
+
+// keyOf is keyFor preceded by the check for a message cut short; it adds the
+// finding to the witness.
+func keyOf(path string, e *expectation, ps []problem, sent, raw []byte, wit map[string]any) (key string) {
+	if k, ok := cutExplains(sent, raw); ok {
+		wit["cut_short"] = fmt.Sprintf("the response is exactly the documented treatment of the first %d of the %d bytes of the message", k, len(sent))
+
+		return path + ":message-cut-short-before-decoding"
+	}
+
+	return keyFor(path, e, ps)
+}
+
 func keyFor(path string, e *expectation, ps []problem) (key string) {
 	has := func(kind string) (ok bool) {
 		for _, p := range ps {
